@@ -7,8 +7,12 @@ pub mod h_prim {
 pub mod h_comb2 {
     include!(concat!(env!("CHUMSKY_VERIF_DIR"), "/h_comb2.rs"));
 }
+pub mod h_iter {
+    include!(concat!(env!("CHUMSKY_VERIF_DIR"), "/h_iter.rs"));
+}
 pub fn register_all(r: &mut Vec<(&'static str, fn())>) {
     h_comb::register(r);
     h_prim::register(r);
     h_comb2::register(r);
+    h_iter::register(r);
 }
